@@ -14,7 +14,7 @@ RULE = ("op sequences: first `clock T0` (T0 = 1.9e12 + offsets on/around bucket 
         "invalid and NaN triggers), injected load/cpu readings exactly at a loaded trigger, at the adjacent floats (bit pattern +-1), +-1e-9, +-1e-4, +-1e-3, +-0.25, "
         "well above, plus NaN / +-Inf / negative / -0 / denormal readings, then 10-90 ops: inbound / outbound / default-type (no WithTrafficType option) entries over 4 resources "
         "with batch counts {0,1,2,3,7,none}, exits in random order, time steps {0,1,50..400,499,500,501,999,1000,1001,>array, to next bucket "
-        "boundary}, rule reloads (fresh slices, and the same slice after an in-place change of one rule object), stat reads; four profiles (mixed, burst = many entries per bucket, bbr = load above trigger with "
+        "boundary}, rule reloads (fresh slices, and the same slice after an in-place change of one rule object), stat reads (incl. the error count of `exit … err`), `rules` reads of system.GetRules(), nil pointers in the loaded slice, memory-usage injections; four profiles (mixed, burst = many entries per bucket, bbr = load above trigger with "
         "completions in the window so that the capacity estimate is the deciding term, rt = response times of a few ms against avgRT triggers between whole ms). Non-trivial = the case contains at least one "
         "system block and one inbound pass decided while >=1 rule was loaded; distinct by (multiset of loaded (metric,strategy), "
         "sequence of decisions).")
@@ -55,6 +55,9 @@ def gen_rule(rng):
     r = rng.random()
     metric = rng.choice([0, 0, 1, 2, 2, 3, 3, 4])
     strategy = rng.choice([-1, -1, 1, 1, 1, 0, 2]) if metric in (0, 4) else rng.choice([-1, -1, -1, 1, 0])
+    if r < 0.01:       # a nil pointer in the slice
+        GEN_STATS["rule:nil"] += 1
+        return "nil"
     if r < 0.04:       # invalid: dropped by IsValidSystemRule
         k = rng.choice(["neg", "cpu>1", "metric"])
         GEN_STATS["rule:invalid"] += 1
@@ -78,6 +81,8 @@ def unfb(tok):
 
 
 def rule_valid(tok):
+    if tok == "nil":
+        return False
     m, _, f = tok.split("/")
     v = unfb(f)
     return int(m) < 5 and v == v and v >= 0 and not (int(m) == 4 and v > 1)
@@ -190,7 +195,7 @@ def gen_case(rng, cid):
         elif r < 0.68:
             if live:
                 x = live.pop(rng.randrange(len(live)))
-                ops.append(f"exit {x}")
+                ops.append(f"exit {x}" + (" err" if rng.random() < 0.2 else ""))
         elif r < 0.86:
             if profile == "burst":
                 d = rng.choice([0, 1, 5, 50, 100, 250, 499, 500])
@@ -205,8 +210,11 @@ def gen_case(rng, cid):
             now += d
             ops.append(f"clock {now}")
         elif r < 0.90:
-            kind = rng.choice(["load", "cpu"])
-            ops.append(f"sys {kind} {fbv(sys_value(rng, kind, rules))}")
+            if rng.random() < 0.08:     # memory usage: not an input of any system rule
+                ops.append(f"sys mem {rng.choice([-1, 0, 1 << 20, 1 << 40])}")
+            else:
+                kind = rng.choice(["load", "cpu"])
+                ops.append(f"sys {kind} {fbv(sys_value(rng, kind, rules))}")
         elif r < 0.93:
             valid_idx = [k for k, tok in enumerate(rules.split()[1:]) if rule_valid(tok)]
             if valid_idx and rng.random() < 0.4:
@@ -222,7 +230,7 @@ def gen_case(rng, cid):
                 rules = gen_rules(rng)
                 ops.append(rules)
         else:
-            ops.append("stat")
+            ops.append("stat" if rng.random() < 0.8 else "rules")
     # every case returns the (not time based) gauge to zero
     rng.shuffle(live)
     if live and rng.random() < 0.5:
@@ -296,6 +304,8 @@ def densify(ops, rng):
         out.append(o)
         if rng.random() < 0.4:
             out.append("stat")
+        if rng.random() < 0.1:
+            out.append("rules")
         if rng.random() < 0.3 and not o.startswith("case"):
             k += 1
             d = rng.choice(["in", "out", "default"])
@@ -335,7 +345,8 @@ META = {
                    "the inbound aggregates and of load/cpu over any linearly ordered carrier of the float64 values, the code-shaped AdaptiveSlot.Check "
                    "never blocks outbound traffic, blocks an inbound request iff some loaded rule is violated (the property's predicate, written once in "
                    "Model/System.lean), and passes it when none is; the aggregates the code reads (leap array 20x500 ms, default view, gauge) equal the "
-                   "reference recomputed from the recorded history for every monotone op sequence. The model is tied to core/system, core/stat and "
+                   "reference recomputed from the recorded history for every monotone op sequence; the end-to-end equality (code-shaped machine = Spec machine on every op "
+                   "sequence) also holds on a carrier with IEEE-like NaN comparisons for everything LoadRules can put in force (decisions_eq_spec_nan_carrier). The model is tied to core/system, core/stat and "
                    "api.Entry by running the same op files through the real packages (virtual clock, injected load/cpu) and the compiled Lean driver."),
     "level_note": ("Trusted: Lean kernel; axioms propext/Classical.choice/Quot.sound; Go harness (time shift by whole array intervals between cases in one process); "
                    "binary64 expressions (qps, GetMaxAvg*MinRT/1000) are parameters of the proof and instantiated with Lean Float in the driver; sequential use only; "
